@@ -60,7 +60,16 @@
 /* the input: an exact-size, 16-aligned static object; the data starts VP_MIS
  * bytes into it.  (A static object rather than vp_input(): the pointer must
  * be a plain object address for CBMC to resolve the routine's trip counts.) */
-#define VP_DATASZ (VP_MODE == 3 ? 48 : VP_MIS + VP_LEN)
+/* crc32c_generic computes x = round_up(p, 4) and compares x <= e even when
+ * the input ends before the next 4-byte boundary ("This might be past the end
+ * of the buffer"): x is then up to 3 bytes beyond one-past-the-end of the
+ * caller's object.  That is outside ISO C's rules for pointer comparison but
+ * harmless on flat-address machines; so that the pointer model does not
+ * report it, exactly the missing 1..3 bytes are appended as slack (symbolic
+ * contents, never part of the data; only 6 size tuples need it). */
+#define VP_TO_ALIGN ((4 - VP_MIS % 4) % 4)
+#define VP_SLACK (VP_MODE == 1 && VP_LEN < VP_TO_ALIGN ? VP_TO_ALIGN - VP_LEN : 0)
+#define VP_DATASZ (VP_MODE == 3 ? 48 : VP_MIS + VP_LEN + VP_SLACK)
 static uint8_t vp_data[VP_DATASZ + (VP_DATASZ == 0)] __attribute__((aligned(16)));
 
 /* one bit of the reflected CRC division */
@@ -152,7 +161,7 @@ harness(void) {
   {
     uint8_t *in = vp_data;
     uint32_t z = vp_u32(), got, want;
-    vp_fill(in, VP_MIS + VP_LEN);
+    vp_fill(in, VP_MIS + VP_LEN + VP_SLACK);
     got = ldb_crc32c_extend(z, in + VP_MIS, VP_LEN);
     want = vp_ref_crc32c_extend(z, in + VP_MIS, VP_LEN);
     VP_ASSERT(got == want, "ldb_crc32c_extend == bitwise CRC-32C");
